@@ -102,7 +102,8 @@ A_TINY = ['"', "\\", "0", "1", "e", ".", "-", "a"]
 # surrounding white space), the str.isalnum classes, terminators
 A_HEX = list("019aFgxX_+- ") + ["\n", "\t", '"', "\\", "\u0663", "\u00b2", "\u2167", "\u00e9"]
 A_HEXQ = list("01aFgx_+ ") + ["\n", '"', "\\", "\u0663", "\u00e9"]
-ALPHABETS = {"FULL": A_FULL, "MID": A_MID, "Q4": A_Q4, "CORE": A_CORE, "TINY": A_TINY, "HEX": A_HEX, "HEXQ": A_HEXQ}
+A_MICRO = ['"', "\\", "a", "\n"]  # quote runs: "" vs """ openers, \""" inside block strings, line terminators in strings
+ALPHABETS = {"FULL": A_FULL, "MID": A_MID, "Q4": A_Q4, "CORE": A_CORE, "TINY": A_TINY, "HEX": A_HEX, "HEXQ": A_HEXQ, "MICRO": A_MICRO}
 assert len(A_HEX) == 20 and len(set(A_HEX)) == 20 and len(A_HEXQ) == 14 and set(A_HEXQ) <= set(A_HEX)
 assert len(A_Q4) == 20 and set(A_Q4) <= set(A_MID)
 assert len(A_FULL) == 57 and len(set(A_FULL)) == 57
@@ -163,11 +164,12 @@ _ALL_FRAMES = tuple(range(len(FRAMES)))
 L_PLAN = {
     "quick": [("FULL", 0, _ALL_FRAMES, "all", 0), ("FULL", 1, _ALL_FRAMES, "all", 0), ("FULL", 2, _ALL_FRAMES, "all", 0),
               ("MID", 3, _ALL_FRAMES, "all", 0), ("HEXQ", 4, (3,), "diag", 0), ("Q4", 4, _ALL_FRAMES, "diag", 1),
-              ("TINY", 5, (0,), "diag", 1), ("TINY", 6, (0,), "diag", 1)],
+              ("TINY", 5, (0,), "diag", 1), ("TINY", 6, (0,), "diag", 1), ("MICRO", 7, (0,), "diag", 1), ("MICRO", 8, (0,), "diag", 1)],
     "thorough": [("FULL", 0, _ALL_FRAMES, "all", 0), ("FULL", 1, _ALL_FRAMES, "all", 0), ("FULL", 2, _ALL_FRAMES, "all", 0),
                  ("MID", 3, _ALL_FRAMES, "all", 0), ("FULL", 3, _ALL_FRAMES, "diag", 0), ("HEX", 4, (3,), "diag", 0),
                  ("MID", 4, _ALL_FRAMES, "diag", 1), ("HEXQ", 5, (3,), "diag", 1), ("CORE", 5, (0, 1), "diag", 1),
-                 ("TINY", 6, (0,), "diag", 1), ("TINY", 7, (0,), "diag", 1)],
+                 ("TINY", 6, (0,), "diag", 1), ("MICRO", 7, (0, 1), "diag", 1), ("MICRO", 8, (0, 1), "diag", 1),
+                 ("MICRO", 9, (0,), "diag", 1)],
 }
 # prefix search: per tier: shard prefix length; per grammar configuration (depth of tier A, depth of tier B) where
 # depth = longest prefix that is extended (inputs of up to depth+1 tokens are tried); inputs of up to ``fullx``
@@ -177,8 +179,8 @@ P_PLAN = {
               "depth": {("Document", 0, 0): (7, 7), ("Document", 0, 1): (7, 7), ("Document", 1, 0): (5, 5), ("Document", 1, 1): (5, 5),
                         ("Value", 0, 0): (7, 7), ("Type", 0, 0): (8, 8)}},
     "thorough": {"shard": 3, "fullx": 3,
-                 "depth": {("Document", 0, 0): (9, 10), ("Document", 0, 1): (9, 10), ("Document", 1, 0): (6, 7), ("Document", 1, 1): (6, 7),
-                           ("Value", 0, 0): (8, 9), ("Type", 0, 0): (10, 10)}},
+                 "depth": {("Document", 0, 0): (8, 9), ("Document", 0, 1): (8, 9), ("Document", 1, 0): (5, 6), ("Document", 1, 1): (5, 6),
+                           ("Value", 0, 0): (7, 8), ("Type", 0, 0): (10, 10)}},
 }
 
 
